@@ -80,6 +80,35 @@ func (c06) Gen(rt *rapid.T, thorough bool) any {
 		return s
 	}
 	s.Knobs.Watch = []string{":range"}
+	if k := rapid.IntRange(0, 9).Draw(rt, "contention6"); k < 2 {
+		// contention preset: many producers on a full buffer whose worker is held for the whole
+		// phase, a scheduling choice at every step - the evict-and-retry loops race each other
+		s.Policy, s.Gate, s.Restart = "DiscardOldest", 2, false
+		s.Knobs.Dense, s.Knobs.Strategy, s.Knobs.Starve = true, 0, nil
+		s.Prefill = s.BufferSize + 1
+		np := rapid.IntRange(6, 12).Draw(rt, "contention_producers6")
+		for p := 0; p < np; p++ {
+			var ops []AOp
+			for i := 0; i < 240/np; i++ {
+				ops = append(ops, AOp{Lvl: []string{"INFO", "ERROR"}[(p+i)%2], Raw: (p+i)%5 == 0, Size: 2})
+			}
+			s.Producers = append(s.Producers, ops)
+		}
+		return s
+	} else if k == 2 {
+		// a very long run of discards on one logger: nothing about the 65536th is special
+		s.Policy = rapid.SampledFrom([]string{"Discard", "DiscardOldest"}).Draw(rt, "long_policy")
+		s.Gate, s.Restart, s.Prefill, s.BufferSize, s.Via = 2, false, 0, 100, "direct"
+		s.Knobs.Starve, s.Knobs.Strategy = nil, 0
+		long := 66000
+		if !thorough && rapid.IntRange(0, 7).Draw(rt, "long_run") != 0 {
+			long = 300 // most quick-tier cases of this preset stay short
+		}
+		s.LongRun = long
+		s.Knobs.MaxSteps = 40 * long
+		s.Producers = [][]AOp{nil, nil}
+		return s
+	}
 	s.Gate = rapid.SampledFrom([]int{1, 1, 2}).Draw(rt, "gatemode")
 	s.Prefill = rapid.SampledFrom([]int{0, s.BufferSize - 6, s.BufferSize - 1, s.BufferSize + 1}).Draw(rt, "prefill_b")
 	for i, n := 0, rapid.IntRange(0, 3).Draw(rt, "nclock"); i < n; i++ {
@@ -429,7 +458,18 @@ func (c06) runConc(x *Exec, s *AsyncScn) {
 	sys.gateEnvs(x, s.Policy == "Block") // for the discard policies nothing may depend on the worker
 	clockEnvMs(x, s.Clock)
 	subs := make([][]*Sub, len(s.Producers))
-	sys.spawnProducers(x, subs)
+	if s.LongRun > 0 {
+		// two producers, s.LongRun submissions in total, alternating events and raw writes
+		for p := range subs {
+			x.Sim.Spawn(fmt.Sprintf("producer%d", p), func() {
+				for i := 0; i < s.LongRun/2; i++ {
+					subs[p] = append(subs[p], sys.submit(p, i, AOp{Lvl: "INFO", Raw: i%3 == 0, Size: 1}, nil))
+				}
+			})
+		}
+	} else {
+		sys.spawnProducers(x, subs)
+	}
 	res := x.Sim.Run(nil)
 	if res.StepCap {
 		o.violate("livelock", "C06/conc/producer-livelock/"+s.Policy, "producers did not finish within the step cap")
@@ -508,6 +548,33 @@ func (c06) runConc(x *Exec, s *AsyncScn) {
 	// (c1) no overflow possible, no drop allowed
 	if accepted <= s.BufferSize && counter != 0 {
 		o.violate("drop-without-overflow", "C06/conc/drop-without-overflow/"+s.Policy, "%d submissions fit the buffer of %d, yet %d were discarded", accepted, s.BufferSize, counter)
+	}
+	if s.Policy == "DiscardOldest" && s.Gate == 2 {
+		// (c3) the worker was held for the whole producer phase: it has one item in its hand (the
+		// first it took), everything else that was delivered is the final content of the queue.
+		// Evictions always take the head of the queue and a producer's items sit in it in
+		// submission order, so what survives of one producer is a suffix of what it submitted.
+		inHand := ""
+		if len(items) > 0 {
+			inHand, _ = itemID(items[0])
+		}
+		newest := map[int]int{} // producer -> lowest delivered seq (ignoring the item in hand)
+		for id := range deliveredAt {
+			if sb := byID[id]; id != inHand {
+				if v, ok := newest[sb.Task]; !ok || sb.Seq < v {
+					newest[sb.Task] = sb.Seq
+				}
+			}
+		}
+		for _, sb := range all {
+			if _, ok := deliveredAt[sb.ID]; ok || !sb.Returned {
+				continue
+			}
+			if low, ok := newest[sb.Task]; ok && sb.Seq > low {
+				o.violate("dropped-newer", "C06/conc/discard-oldest-dropped-a-newer-item-of-the-producer", "DiscardOldest with the worker held: %s was dropped although the same producer's older item s%d survived - evictions take the oldest", sb.ID, low)
+				break
+			}
+		}
 	}
 	switch s.Policy {
 	case "DiscardOldest":
